@@ -17,10 +17,23 @@ func c29SkRun(line string) string {
 	f := strings.Fields(line)
 	switch {
 	case len(f) == 4 && f[0] == "ecv":
+		// both entry points must give the same verdict: the package-level function (used by the batch
+		// verifier) and the PublicKey method (used by the host function and the keystore)
+		a := "ok"
 		if err := VerifySignature(vhUnhex(f[1]), vhUnhex(f[3]), vhUnhex(f[2])); err != nil {
-			return "fail"
+			a = "fail"
 		}
-		return "ok"
+		b := "fail"
+		pk := new(PublicKey)
+		if err := pk.Decode(vhUnhex(f[1])); err == nil {
+			if ok, err := pk.Verify(vhUnhex(f[2]), vhUnhex(f[3])); err == nil && ok {
+				b = "ok"
+			}
+		}
+		if a != b {
+			return "paths-disagree fn=" + a + " method=" + b
+		}
+		return a
 	case len(f) == 3 && f[0] == "ecr":
 		pub, err := RecoverPublicKey(vhUnhex(f[1]), vhUnhex(f[2]))
 		if err != nil {
